@@ -37,6 +37,8 @@ type Summary struct {
 	Sweep            int            `json:"sweep_requests"`
 	ScanListings     int            `json:"complete_scan_listings_compared"`
 	ErrorPathRepeats int            `json:"error_path_requests_repeated"`
+	BlockSequences   int            `json:"block_sequences"`
+	LargeRequests    int            `json:"large_requests"`
 	Blocks           int            `json:"multi_blocks"`
 	BlocksFailed     int            `json:"multi_blocks_with_a_failing_command"`
 	Failures         []Failure      `json:"failures"`
@@ -346,6 +348,13 @@ func runC14(seed int64, n int, grams []*hx.CmdGrammar) {
 			probe.Close()
 		}
 	}
+	// very large requests and requests the storage refuses while they run: tens of thousands of
+	// arguments (more than SQLite takes variables), patterns too long for GLOB - alone and inside a
+	// block.  One well-formed reply each (a value or an error), the connection in step, the
+	// server alive, other clients served.
+	if len(sum.Failures) == 0 {
+		c14Large(c, newConn, grams, &history, srv)
+	}
 	// transaction blocks with hostile content: one reply per request inside the
 	// block (QUEUED or an error), one reply to EXEC, and the connection in step afterwards
 	for round := 0; round < n/20 && len(sum.Failures) == 0; round++ {
@@ -404,6 +413,126 @@ func runC14(seed int64, n int, grams []*hx.CmdGrammar) {
 	}
 	c.Close()
 	sum.Scripts = sent
+}
+
+func c14Large(c *hx.Client, newConn func() *hx.Client, grams []*hx.CmdGrammar, history *[][]string, srv *hx.Server) {
+	known := map[string]bool{}
+	for _, cg := range grams {
+		known[cg.Name] = true
+	}
+	many := func(prefix string, n int) []string {
+		out := make([]string, n)
+		for i := range out {
+			out[i] = prefix + strconv.Itoa(i)
+		}
+		return out
+	}
+	pairs := func(n int) []string {
+		out := make([]string, 0, 2*n)
+		for i := 0; i < n; i++ {
+			out = append(out, "bigk"+strconv.Itoa(i), "v")
+		}
+		return out
+	}
+	scored := func(n int) []string {
+		out := make([]string, 0, 2*n)
+		for i := 0; i < n; i++ {
+			out = append(out, strconv.Itoa(i), "m"+strconv.Itoa(i))
+		}
+		return out
+	}
+	longPat := "*" + strings.Repeat("a", 60000)
+	type big struct {
+		label string
+		args  []string
+	}
+	N := 40000
+	reqs := []big{
+		{"SADD bigset a b c", []string{"SADD", "bigset", "a", "b", "c"}},
+		{"HSET bighash f v", []string{"HSET", "bighash", "f", "v"}},
+		{"ZADD bigz 1 m", []string{"ZADD", "bigz", "1", "m"}},
+		{"RPUSH biglist a", []string{"RPUSH", "biglist", "a"}},
+		{"SET bigstr v", []string{"SET", "bigstr", "v"}},
+		{"DEL <40000 keys>", append([]string{"DEL"}, many("bigk", N)...)},
+		{"EXISTS <40000 keys>", append([]string{"EXISTS"}, many("bigk", N)...)},
+		{"MGET <40000 keys>", append([]string{"MGET"}, many("bigk", N)...)},
+		{"MSET <40000 pairs>", append([]string{"MSET"}, pairs(N)...)},
+		{"DEL <40000 keys> (now existing)", append([]string{"DEL"}, many("bigk", N)...)},
+		{"SADD bigset <40000 members>", append([]string{"SADD", "bigset"}, many("m", N)...)},
+		{"SREM bigset <40000 members>", append([]string{"SREM", "bigset"}, many("m", N)...)},
+		{"SINTER <40000 keys>", append([]string{"SINTER"}, many("bigk", N)...)},
+		{"SUNION <40000 keys>", append([]string{"SUNION"}, many("bigk", N)...)},
+		{"SDIFFSTORE bigdest <40000 keys>", append([]string{"SDIFFSTORE", "bigdest"}, many("bigk", N)...)},
+		{"HDEL bighash <40000 fields>", append([]string{"HDEL", "bighash"}, many("f", N)...)},
+		{"HMGET bighash <40000 fields>", append([]string{"HMGET", "bighash"}, many("f", N)...)},
+		{"HSET bighash <40000 pairs>", append([]string{"HSET", "bighash"}, pairs(N)...)},
+		{"ZADD bigz <40000 pairs>", append([]string{"ZADD", "bigz"}, scored(N)...)},
+		{"ZREM bigz <40000 members>", append([]string{"ZREM", "bigz"}, many("m", N)...)},
+		{"ZUNION 40000 <40000 keys>", append([]string{"ZUNION", strconv.Itoa(N)}, many("bigk", N)...)},
+		{"RPUSH biglist <40000 elements>", append([]string{"RPUSH", "biglist"}, many("e", N)...)},
+		{"KEYS <60001-byte pattern>", []string{"KEYS", longPat}},
+		{"SCAN 0 MATCH <60001-byte pattern>", []string{"SCAN", "0", "MATCH", longPat}},
+		{"SSCAN bigset 0 MATCH <60001-byte pattern>", []string{"SSCAN", "bigset", "0", "MATCH", longPat}},
+		{"HSCAN bighash 0 MATCH <60001-byte pattern>", []string{"HSCAN", "bighash", "0", "MATCH", longPat}},
+		{"ZSCAN bigz 0 MATCH <60001-byte pattern>", []string{"ZSCAN", "bigz", "0", "MATCH", longPat}},
+		{"SET <1 MB key> v", []string{"SET", strings.Repeat("k", 1<<20), "v"}},
+		{"GET <1 MB key>", []string{"GET", strings.Repeat("k", 1<<20)}},
+	}
+	sendOne := func(cl *hx.Client, b big, what string) (hx.RV, bool) {
+		*history = append(*history, []string{b.label})
+		if err := cl.Send(toBytes(b.args)); err != nil {
+			fail("c14-send", "cannot send "+b.label+": "+err.Error(), *history)
+			return hx.RV{}, false
+		}
+		v, err := cl.Recv(30 * time.Second)
+		if err != nil {
+			if !srv.Alive() {
+				fail("c14-server-down", "the server no longer answers after "+b.label+what, *history)
+			} else {
+				fail("c14-no-reply", "no complete well-formed reply to "+b.label+what+": "+err.Error(), *history)
+			}
+			return hx.RV{}, false
+		}
+		sum.LargeRequests++
+		return v, true
+	}
+	ping := func(cl *hx.Client, tok, after string) bool {
+		p, err := cl.Do("PING", tok)
+		if err != nil || p.Kind != '$' || string(p.Str) != tok {
+			fail("c14-out-of-step", fmt.Sprintf("after %s the sentinel PING %s was answered with %s: the connection is out of step", after, tok, p.Verbose()), *history)
+			return false
+		}
+		return true
+	}
+	for i, b := range reqs {
+		if !known[strings.ToLower(b.args[0])] || len(sum.Failures) > 0 {
+			continue
+		}
+		v, ok := sendOne(c, b, "")
+		if !ok {
+			return
+		}
+		if !ping(c, fmt.Sprintf("large-%d", i), b.label+" (reply "+v.Verbose()[:min(60, len(v.Verbose()))]+")") {
+			return
+		}
+		// the same request queued in a block: QUEUED (or an error), then one array for EXEC
+		tc := newConn()
+		if tc == nil {
+			fail("c14-server-down", "cannot connect after "+b.label, *history)
+			return
+		}
+		if m, err := tc.Do("MULTI"); err == nil && m.Canon() == "+OK" {
+			if _, ok := sendOne(tc, b, " inside a block"); ok {
+				e, err := tc.Do("EXEC")
+				if err != nil || e.Kind != '*' && e.Kind != '-' {
+					fail("c14-no-reply", "no complete well-formed reply to EXEC of a block holding "+b.label+": "+fmt.Sprint(err), *history)
+				} else {
+					ping(tc, fmt.Sprintf("large-block-%d", i), "EXEC of a block holding "+b.label)
+				}
+			}
+		}
+		tc.Close()
+	}
 }
 
 // ---------- C15 ----------
@@ -635,6 +764,45 @@ func runC15(seed int64, n int) {
 		}
 	}
 
+	// sequences of blocks on one connection: a block (MULTI, up to two commands out of
+	// {W, F, U, R, K}, EXEC or DISCARD), optionally a plain command, then a second block (up to one
+	// command): whatever the first block did - failed, was discarded, held an unparsable command -
+	// the second starts from an empty queue
+	{
+		body := []int{sW, sF, sU, sR, sK}
+		var bodies [][]int
+		bodies = append(bodies, nil)
+		for _, a := range body {
+			bodies = append(bodies, []int{a})
+		}
+		for _, a := range body {
+			for _, b := range body {
+				bodies = append(bodies, []int{a, b})
+			}
+		}
+		for _, b1 := range bodies {
+			for _, t1 := range []int{sEXEC, sDISCARD} {
+				for bi, b2 := range bodies[:6] {
+					for _, t2 := range []int{sEXEC, sDISCARD} {
+						if len(sum.Failures) > 0 {
+							break
+						}
+						script := append([]int{sMULTI}, b1...)
+						script = append(script, t1)
+						if (bi+t2)%2 == 0 {
+							script = append(script, sW)
+						}
+						script = append(script, sMULTI)
+						script = append(script, b2...)
+						script = append(script, t2, sR)
+						runScript(script)
+						sum.BlockSequences++
+					}
+				}
+			}
+		}
+	}
+
 	// two connections interleaved: A queues a block while B runs commands
 	r := rand.New(rand.NewSource(seed))
 	for round := 0; round < n/10 && len(sum.Failures) == 0; round++ {
@@ -765,10 +933,52 @@ func runC13(seed int64, n int, grams []*hx.CmdGrammar) {
 		if !handled {
 			sum.Unhandled++
 			// keep the twin in step
-			if low == "spop" && len(args) == 2 {
-				// a random choice: remove from the twin the member the server removed
-				if got.Kind == '$' && !got.Null {
+			if (low == "spop" || low == "srandmember") && len(args) == 2 {
+				// a random choice: the reply must be a member of the set as the twin has it (null
+				// when there is none); SPOP removes it - from the twin the member the server
+				// removed -, SRANDMEMBER changes nothing (the content comparison sees a removal)
+				members, merr := twin.Set().Items(args[1])
+				isSet := true
+				if k, kerr := twin.Key().Get(args[1]); kerr == nil && k.Type != 3 {
+					isSet = false
+				}
+				if merr == nil && isSet {
+					sum.Handled++
+					if len(members) == 0 {
+						if !(got.Kind == '$' && got.Null) {
+							fail("c13-reply", q(args)+" on a key that holds no set answered "+got.Canon()+"; the documented reply is null", hist)
+							return false
+						}
+					} else {
+						in := false
+						for _, m := range members {
+							if got.Kind == '$' && !got.Null && string(m) == string(got.Str) {
+								in = true
+							}
+						}
+						if !in {
+							fail("c13-reply", q(args)+" answered "+got.Canon()+", which is not a member of the set", hist)
+							return false
+						}
+					}
+				}
+				if low == "spop" && got.Kind == '$' && !got.Null {
 					_, _ = twin.Set().Delete(args[1], got.Str)
+				}
+				return true
+			}
+			if low == "randomkey" && len(args) == 1 {
+				n, lerr := twin.Key().Len()
+				if lerr == nil {
+					if got.Kind == '$' && !got.Null {
+						if ok, _ := twin.Key().Exists(string(got.Str)); !ok {
+							fail("c13-reply", q(args)+" answered "+got.Canon()+", which is not an existing key", hist)
+							return false
+						}
+					} else if !(got.Kind == '$' && got.Null && n == 0) && n > 0 && got.Kind != '$' {
+						fail("c13-reply", q(args)+" answered "+got.Canon()+"; the documented reply is a key name or null", hist)
+						return false
+					}
 				}
 				return true
 			}
@@ -834,6 +1044,12 @@ func runC13(seed int64, n int, grams []*hx.CmdGrammar) {
 	// options, with each option alone and with each pair of options, on a key of its type that has
 	// a time-to-live and on a missing key
 	c13Sweep(g, grams, one)
+	// (1b) arguments that are bytes, not text and not numbers: multi-byte UTF-8, text that reads
+	// as a number but is not its canonical spelling, control bytes - as value, member and field
+	// of every command that takes one, followed by the lookups that must find exactly those bytes
+	if len(sum.Failures) == 0 {
+		c13Bytes(grams, one)
+	}
 	// (2) random vectors
 	for i := 0; i < n && len(sum.Failures) == 0; i++ {
 		cg := grams[g.R.Intn(len(grams))]
@@ -852,6 +1068,205 @@ func runC13(seed int64, n int, grams []*hx.CmdGrammar) {
 	// commands issued one by one (the twin gets them through the oracle)
 	if len(sum.Failures) == 0 {
 		c13Blocks(g, grams, c, twin, srvPath, n/40, &hist)
+	}
+	// (4) the last second of a key's life: TTL / PTTL / EXISTS / GET on a key whose expiry lies in
+	// the current wall-clock second, then just after the expiry
+	if len(sum.Failures) == 0 {
+		c13LastSecond(c, &hist)
+	}
+	// (5) a queued command runs at EXEC: a relative time-to-live queued in a MULTI block counts
+	// from the moment the block is executed, not from the moment it was queued
+	if len(sum.Failures) == 0 {
+		c13QueuedExpiry(c, srvPath, &hist)
+	}
+}
+
+func c13QueuedExpiry(c *hx.Client, srvPath string, hist *[][]string) {
+	do := func(args ...string) (hx.RV, bool) {
+		*hist = append(*hist, args)
+		if err := c.Send(toBytes(args)); err != nil {
+			fail("c13-send", err.Error(), *hist)
+			return hx.RV{}, false
+		}
+		got, err := c.Recv(5 * time.Second)
+		if err != nil {
+			fail("c13-no-reply", "no well-formed reply to "+q(args)+": "+err.Error(), *hist)
+			return hx.RV{}, false
+		}
+		return got, true
+	}
+	cases := []struct {
+		cmd []string
+		ms  int64
+	}{
+		{[]string{"EXPIRE", "kq", "1000"}, 1000000},
+		{[]string{"PEXPIRE", "kq", "2000000"}, 2000000},
+		{[]string{"SET", "kq", "w", "EX", "3000"}, 3000000},
+		{[]string{"SET", "kq", "w", "PX", "4000000"}, 4000000},
+		{[]string{"SETEX", "kq", "5000", "w"}, 5000000},
+		{[]string{"PSETEX", "kq", "6000000", "w"}, 6000000},
+	}
+	retried := map[int]bool{}
+	for ci := 0; ci < len(cases); ci++ {
+		cs := cases[ci]
+		if _, ok := do("SET", "kq", "v"); !ok {
+			return
+		}
+		if r, ok := do("MULTI"); !ok || r.Kind != '+' {
+			return
+		}
+		r, ok := do(cs.cmd...)
+		if !ok {
+			return
+		}
+		if r.Kind != '+' || string(r.Str) != "QUEUED" {
+			// not a command of this server: leave the block
+			do("DISCARD")
+			continue
+		}
+		time.Sleep(350 * time.Millisecond)
+		t0 := time.Now().UnixMilli()
+		if _, ok := do("EXEC"); !ok {
+			return
+		}
+		t1 := time.Now().UnixMilli()
+		a, err := hx.ContentOfFile(srvPath)
+		if err != nil {
+			continue
+		}
+		sum.Handled++
+		et, has := a.ETimes["x"+hex.EncodeToString([]byte("kq"))]
+		if !has || et < t0+cs.ms || et > t1+cs.ms {
+			if !retried[ci] {
+				// (a step of the wall clock during the 350 ms would look the same: once more)
+				retried[ci] = true
+				ci--
+				continue
+			}
+			fail("c13-state", fmt.Sprintf("%s queued in a MULTI block and executed by an EXEC that ran between %d and %d (350 ms after it was queued) left the expiry instant %d; counted from the execution it lies in [%d, %d]",
+				q(cs.cmd), t0, t1, et, t0+cs.ms, t1+cs.ms), *hist)
+			return
+		}
+	}
+	do("DEL", "kq")
+}
+
+// c13Bytes: see (1b) in runC13.  Only commands the server knows are sent.
+func c13Bytes(grams []*hx.CmdGrammar, one func(int, []string) bool) {
+	known := map[string]bool{}
+	for _, cg := range grams {
+		known[cg.Name] = true
+	}
+	i := 0
+	send := func(args ...string) bool {
+		if !known[strings.ToLower(args[0])] {
+			return true
+		}
+		i++
+		return one(3*i, args) // (every third index: the content comparison runs each time)
+	}
+	vals := []string{"h\xc3\xa9llo", "\xe2\x82\xac\xf0\x9f\x98\x80", "\xc3\xa9\xc3\xa9\xc3", "007", "+7", "-0", "00", "7", "0", "1e3", " 7", "0x10", "1_000",
+		"tag:\xf0\x9f\x98\x80", "tag:\xff", "a\r\nb", "\x00", "x\x00y", ""}
+	send("DEL", "bs", "be", "bz", "bh", "bl")
+	for _, v := range vals {
+		steps := [][]string{
+			{"SET", "bs", v}, {"STRLEN", "bs"}, {"GET", "bs"}, {"APPEND", "bs", v}, {"STRLEN", "bs"}, {"GETRANGE", "bs", "0", "-1"},
+			{"SADD", "be", v}, {"SISMEMBER", "be", v}, {"SCARD", "be"}, {"SREM", "be", v}, {"SCARD", "be"}, {"SADD", "be", v}, {"SMEMBERS", "be"},
+			{"ZADD", "bz", "1", v}, {"ZSCORE", "bz", v}, {"ZRANK", "bz", v}, {"ZCARD", "bz"}, {"ZREM", "bz", v}, {"ZCARD", "bz"}, {"ZADD", "bz", "2", v}, {"ZINCRBY", "bz", "1", v},
+			{"HSET", "bh", v, v}, {"HGET", "bh", v}, {"HEXISTS", "bh", v}, {"HLEN", "bh"}, {"HDEL", "bh", v}, {"HLEN", "bh"}, {"HSET", "bh", v, v}, {"HSTRLEN", "bh", v},
+			{"RPUSH", "bl", v}, {"LINDEX", "bl", "-1"}, {"LREM", "bl", "0", v}, {"LLEN", "bl"}, {"RPUSH", "bl", v}, {"LINSERT", "bl", "BEFORE", v, v}, {"LLEN", "bl"},
+			{"SSCAN", "be", "0", "MATCH", "tag:*", "COUNT", "100"}, {"ZSCAN", "bz", "0", "MATCH", "tag:*", "COUNT", "100"}, {"HSCAN", "bh", "0", "MATCH", "tag:*", "COUNT", "100"},
+			{"ZSCAN", "bz", "0", "MATCH", "tag:?", "COUNT", "100"}, {"SSCAN", "be", "0", "MATCH", "tag:?", "COUNT", "100"},
+		}
+		for _, st := range steps {
+			if !send(st...) {
+				return
+			}
+		}
+	}
+	for _, st := range [][]string{{"SMEMBERS", "be"}, {"ZRANGE", "bz", "0", "-1"}, {"HGETALL", "bh"}, {"LRANGE", "bl", "0", "-1"}, {"DEL", "bs", "be", "bz", "bh", "bl"}} {
+		if !send(st...) {
+			return
+		}
+	}
+}
+
+// c13LastSecond sets a key to expire at 850 ms into the current second (by PEXPIREAT, PEXPIRE and
+// SET PX in turn) and asks TTL, GET and EXISTS while it is live.  When the key was still there
+// after the answers (EXISTS 1, and the clock still before the expiry), the documented replies are
+// TTL 0 (whole seconds left) and the value; after the expiry: -2, null, 0.
+func c13LastSecond(c *hx.Client, hist *[][]string) {
+	do := func(args ...string) (hx.RV, bool) {
+		*hist = append(*hist, args)
+		if err := c.Send(toBytes(args)); err != nil {
+			fail("c13-send", err.Error(), *hist)
+			return hx.RV{}, false
+		}
+		got, err := c.Recv(5 * time.Second)
+		if err != nil {
+			fail("c13-no-reply", "no well-formed reply to "+q(args)+": "+err.Error(), *hist)
+			return hx.RV{}, false
+		}
+		return got, true
+	}
+	for round := 0; round < 3; round++ {
+		for time.Now().UnixMilli()%1000 > 120 {
+			time.Sleep(5 * time.Millisecond)
+		}
+		start := time.Now().UnixMilli()
+		at := start/1000*1000 + 850
+		key := fmt.Sprintf("klast%d", round)
+		var ok bool
+		switch round {
+		case 0:
+			_, ok = do("SET", key, "v")
+			if ok {
+				_, ok = do("PEXPIREAT", key, strconv.FormatInt(at, 10))
+			}
+		case 1:
+			_, ok = do("SET", key, "v")
+			if ok {
+				_, ok = do("PEXPIRE", key, strconv.FormatInt(at-time.Now().UnixMilli(), 10))
+			}
+		default:
+			_, ok = do("SET", key, "v", "PX", strconv.FormatInt(at-time.Now().UnixMilli(), 10))
+		}
+		if !ok {
+			return
+		}
+		ttl, ok1 := do("TTL", key)
+		ok2 := true // (redka has no PTTL)
+		get, ok3 := do("GET", key)
+		ex, ok4 := do("EXISTS", key)
+		after := time.Now().UnixMilli()
+		if !(ok1 && ok2 && ok3 && ok4) {
+			return
+		}
+		if ex.Kind == ':' && ex.Int == 1 && after < at-20 {
+			sum.Handled += 3
+			if !(ttl.Kind == ':' && ttl.Int == 0) {
+				fail("c13-reply", fmt.Sprintf("TTL of the live key %s, which expires %d ms into the current second, answered %s; the documented reply is the whole seconds left: 0 (EXISTS, asked afterwards, answered 1)", key, at%1000, ttl.Canon()), *hist)
+				return
+			}
+			if !(get.Kind == '$' && !get.Null && string(get.Str) == "v") {
+				fail("c13-reply", fmt.Sprintf("GET of the live key %s answered %s", key, get.Canon()), *hist)
+				return
+			}
+		}
+		for time.Now().UnixMilli() < at+30 {
+			time.Sleep(5 * time.Millisecond)
+		}
+		ttl, ok1 = do("TTL", key)
+		get, ok3 = do("GET", key)
+		ex, ok4 = do("EXISTS", key)
+		if !(ok1 && ok2 && ok3 && ok4) {
+			return
+		}
+		sum.Handled += 4
+		if !(ttl.Kind == ':' && ttl.Int == -2 && get.Kind == '$' && get.Null && ex.Kind == ':' && ex.Int == 0) {
+			fail("c13-reply", fmt.Sprintf("after its expiry the key %s is still answered for: TTL %s GET %s EXISTS %s (documented: -2, null, 0)", key, ttl.Canon(), get.Canon(), ex.Canon()), *hist)
+			return
+		}
 	}
 }
 
@@ -1110,7 +1525,7 @@ func handVectors(cg *hx.CmdGrammar, fam string) [][]string {
 			add(k2)
 			add("kn")
 		}
-	case "spop", "srandmember", "randomkey", "flushdb", "flushall", "dbsize", "config", "command", "select":
+	case "randomkey", "flushdb", "flushall", "dbsize", "config", "command", "select":
 		return nil
 	default:
 		// one key argument
@@ -1160,7 +1575,7 @@ func c13Sweep(g *hx.WireGen, grams []*hx.CmdGrammar, one func(i int, args []stri
 			continue
 		}
 		switch cg.Name {
-		case "flushdb", "flushall", "randomkey", "spop", "srandmember":
+		case "flushdb", "flushall", "randomkey":
 			continue
 		}
 		g.CursorZero = true
